@@ -213,16 +213,18 @@ int iauth_routing(const struct iauth_request *req, char routing[], size_t routin
 struct iauth_request *iauth_validate_request(const char routing[])
 {
     struct iauth_request *req;
+    const char *start;
     char *sep;
     unsigned int serial;
     int id;
 
-    /* Parse the routing tag. */
+    /* Parse the routing tag; both numbers must actually be there. */
     id = strtol(routing, &sep, 16);
-    if (sep[0] != '_')
+    if (sep == routing || sep[0] != '_')
         return NULL;
-    serial = strtoul(sep + 1, &sep, 16);
-    if (sep[0] != '\0')
+    start = sep + 1;
+    serial = strtoul(start, &sep, 16);
+    if (sep == start || sep[0] != '\0')
         return NULL;
 
     /* Look up the client and check that it is the correct one. */
